@@ -73,6 +73,9 @@ def run(case):
             recs = tuple(("r", v) for v in data)
             if cu.find_closest_index(int(case[1]), recs, key=lambda r: r[1]) != i:
                 out.append(["key-variant-differs"])
+            # ... and the item search with a key returns the ELEMENT of the data (the record), not its key
+            if cu.find_closest_item(int(case[1]), recs, key=lambda r: r[1]) != recs[i]:
+                out.append(["closest-item-with-key-differs"])
             return out
         if k == "round":
             # (round (q n d) digits) with n/d an exactly representable float, or (round (i n) digits) for an int / Fraction
@@ -138,6 +141,26 @@ def run(case):
             r2 = cc.MutwoParameterDictToKeywordArgument(f"p{int(case[2])}").convert(d)
             if (r is None) != (r2 is None) or (r2 is not None and (r2[0] != f"p{int(case[2])}" or r2[1] != r[1])):
                 out.append(["default-keyword-differs"])
+            # the duration extractor is the same extraction with its two names given explicitly, or defaulting to the
+            # configured names ("duration" / "duration")
+            r3 = cc.MutwoParameterDictToDuration(f"p{int(case[2])}", f"k{int(case[3])}").convert(d)
+            if (r3 is None) != (r is None) or (r is not None and tuple(r3) != tuple(r)):
+                out.append(["duration-extractor-with-explicit-names-differs"])
+            d4 = dict(d, duration=77)
+            r4 = cc.MutwoParameterDictToDuration().convert(d4)
+            if r4 is None or tuple(r4) != ("duration", 77):
+                out.append(["duration-extractor-default-names-differs"])
+            # the leaf maker with its default converter sequence and default leaf class: a leaf of that duration
+            try:
+                e5 = cc.MutwoParameterDictToChronon().convert({"duration": 3, "p1": 5})
+                if not (isinstance(e5, ce.Chronon) and e5.duration == 3):
+                    out.append(["leaf-maker-defaults-differ"])
+                e6 = cc.MutwoParameterDictToChronon([cc.MutwoParameterDictToDuration(f"p{int(case[2])}")]).convert(dict(d, duration=1))
+                if r is not None and not (isinstance(e6, ce.Chronon) and e6.duration == r[1]):
+                    out.append(["leaf-maker-with-a-named-duration-differs"])
+            except Exception as exc:  # noqa
+                if r is not None:
+                    out.append(["leaf-maker-raised-" + type(exc).__name__ + "-differs"])
             return out
         if k == "chronon":
             d = {f"p{a}": b for a, b in pairs(case[1])}
